@@ -1,8 +1,9 @@
 #!/usr/bin/env python3-vt
 import json, sys, glob, jsonschema
-jsonschema.validate(json.load(open('/verif/MANIFEST.json')), json.load(open('/root/.vp/MANIFEST.schema.json')))
+root = sys.argv[1] if len(sys.argv) > 1 else '/verif'
+jsonschema.validate(json.load(open(root + '/MANIFEST.json')), json.load(open('/root/.vp/MANIFEST.schema.json')))
 print("manifest valid")
 sch = json.load(open('/root/.vp/EVIDENCE.schema.json'))
-for f in sorted(glob.glob('/verif/evidence/*.json')):
+for f in sorted(glob.glob(root + '/evidence/*.json')):
     jsonschema.validate(json.load(open(f)), sch)
     print("evidence valid:", f)
